@@ -10,6 +10,7 @@ mod env;
 mod mapdrv;
 mod scen;
 mod setdrv;
+mod tabledrv;
 mod trace;
 
 use std::process::exit;
